@@ -11,7 +11,8 @@ The engine protocol of Driver/Engine.lean (parsers copied from there), extended 
                                            an empty store).  The history is the one run up to the FIRST
                                            `crash` line of the case: later `crash` lines cut the same log.
 Arguments: as for drv_engine — the model's defaults are the code as it is; `X` switches toggle X on, `noX` off;
-`desc`, `tape=…` choose the walk order of unordered sets.
+`desc`, `tape=…` choose the walk order of unordered sets; `state` appends ` #S <digest>` (the state digest of
+Driver/Engine.lean) to every session / round line that completed.
 -/
 import QbiceVerif.Model.EnginePersist
 open Qbice.Engine Qbice.Persist
@@ -104,6 +105,34 @@ structure DS where
 def execsStr (unordered : Bool) (log : List Nat) : String :=
   if unordered then " X" else String.join ((sortNat log).map fun k => s!" {k}")
 
+def kindTag : Kind → String
+  | .input => "in" | .normal => "nm" | .firewall => "fw" | .projection => "pj" | .external => "ex"
+
+def commaNat (l : List Nat) : String := ",".intercalate (l.map toString)
+
+/-- State digest (argument `state`; a copy of `digest` of Driver/Engine.lean, same format as `eng::state_digest`
+    of the harness): the persistent bookkeeping of every node in ascending key order. -/
+def digest (st : St) : String :=
+  let keys := sortNat (st.nodes.map (·.1))
+  let part (k : Nat) : String :=
+    match lookup k st.nodes with
+    | none => ""
+    | some n =>
+      let deps := ",".intercalate (n.fwd.map fun
+        | .single c => toString c
+        | .unordered cs => "{" ++ commaNat cs ++ "}")
+      let obs := ",".intercalate ((sortNat (n.obs.map (·.1))).map fun c =>
+        match lookup c n.obs with
+        | none => toString c
+        | some o =>
+          let cn := lookup c st.nodes
+          toString c ++ (if cn.map (·.value) != some o.val then "!" else "")
+                     ++ (if cn.map (·.tfc) != some o.tfc then "^" else ""))
+      let dirty := sortNat ((st.dirty.filter (·.1 == k)).map (·.2))
+      let back := sortNat ((st.back.filter (·.1 == k)).map (·.2))
+      s!"{k}:{kindTag n.kind}:v{if n.lastVerified == st.epoch then 1 else 0}:val={n.value}:deps=[{deps}]:obs=[{obs}]:dirty=[{commaNat dirty}]:tfc=[{commaNat n.tfc}]:pend={if n.pendingBP.isSome then 1 else 0}:back=[{commaNat back}]"
+  " ; ".intercalate (keys.map part)
+
 /-- run-time validation of the two hypotheses of the C07 theorems that are not proved for the full
     model: between operations nothing is in flight and the store is the image of the state -/
 def flags (ps : PS) : String :=
@@ -147,13 +176,17 @@ def step (t : Toggles) (d : DS) (toks : List String) : DS × String :=
           if l = 0 then "crashed none" else s!"crashed {ps.st.epoch}")
   | _ => (d, "bad-op")
 
-partial def loop (h : IO.FS.Stream) (out : IO.FS.Stream) (t : Toggles) (d : DS) : IO Unit := do
+partial def loop (h : IO.FS.Stream) (out : IO.FS.Stream) (state : Bool) (t : Toggles) (d : DS) : IO Unit := do
   let line ← h.getLine
   if line.isEmpty then return ()
   let toks := (line.trimAscii.toString.splitOn " ").filter (· ≠ "")
   let (d', o) := step t d toks
+  -- `state`: ` #S <digest of the model state>` after every session / round that completed (programs of at most 64 keys)
+  let isOp := toks.head? == some "session" || toks.head? == some "round"
+  let o := if state && isOp && d'.prog.length ≤ 64 && !(o.startsWith "crash") && !(o.startsWith "bad-op")
+    then o ++ " #S " ++ digest d'.ps.st else o
   out.putStrLn o
-  loop h out t d'
+  loop h out state t d'
 
 /-- the model's defaults are the code as it is; `X` switches toggle X on, `noX` off -/
 def setToggle (t : Toggles) (a : String) : Toggles :=
@@ -175,4 +208,4 @@ def setToggle (t : Toggles) (a : String) : Toggles :=
     if a.startsWith "tape=" then { t with tape := ((a.drop 5).toString.splitOn ",").filterMap String.toNat? } else t
 
 def main (args : List String) : IO Unit := do
-  loop (← IO.getStdin) (← IO.getStdout) (args.foldl setToggle {}) {}
+  loop (← IO.getStdin) (← IO.getStdout) (args.contains "state") (args.foldl setToggle {}) {}
